@@ -6,7 +6,7 @@ W=/tmp/seed/$ID
 cd $W || exit 2
 echo "== $ID: files"; ls seed_out 2>/dev/null | tr '\n' ' '; echo
 # make the worktree exactly HEAD + patch.diff
-git checkout -q -- nmfu.py && git apply seed_out/patch.diff && echo "patch applies cleanly to HEAD" || { echo "PATCH DOES NOT APPLY"; exit 3; }
+git checkout -q -- nmfu.py && git checkout -q --detach $(git -C /repo rev-parse HEAD) && git apply seed_out/patch.diff && echo "patch applies cleanly to HEAD" || { echo "PATCH DOES NOT APPLY"; exit 3; }
 git diff --stat -- nmfu.py | tail -1
 echo "== pytest with change"; timeout 3000 /venv/bin/python -m pytest -q -p no:cacheprovider tests 2>&1 | tail -1
 echo "== demo with change (expect fail)"; PYTHONPATH=$W timeout 900 /venv/bin/python seed_out/demo.py > /tmp/seed/$ID.demo_with.log 2>&1; echo "exit=$?"; tail -3 /tmp/seed/$ID.demo_with.log | cut -c1-300
